@@ -470,6 +470,10 @@ func genC09(g *Gen, tier string, emit func(op string, args ...string)) {
 	for t := 0; t < 256; t++ {
 		o := 1 + t%2
 		emit("ops", showAVPs([]avp{{o, []byte{0xaa}}, {t, []byte{0xbb, byte(t)}}, {o + 2, nil}}), "add:"+itoa(t)+":cc,lookup:"+itoa(t)+",add:"+itoa(o)+":dd")
+		// … and to none of the five operations: Set on a type that occurs twice, Get, Del, Set again on an absent type
+		ts := itoa(t)
+		emit("ops", showAVPs([]avp{{t, []byte{0xb0}}, {o, []byte{0xaa}}, {t, []byte{0xbb, byte(t)}}, {o + 2, nil}}),
+			"set:"+ts+":ee,get:"+ts+",lookup:"+ts+",add:"+ts+":ff,set:"+ts+":-,del:"+ts+",lookup:"+ts+",set:"+ts+":0102,add:"+itoa(o)+":dd,del:"+itoa(o))
 	}
 	for i := 0; i < n; i++ {
 		var init []avp
